@@ -1,3 +1,438 @@
 import Iscp.Model.Rel
 import Iscp.Lemmas.Up
 /- helper lemmas for Props/C02.lean -/
+
+namespace Iscp.Up
+open Iscp
+
+/-! ### states that agree on everything except the sent storage and the waiters -/
+
+/-- field-equivalence: all fields equal except `store` and `waiters` -/
+structure Eqv (s t : St) : Prop where
+  policy : s.policy = t.policy
+  buf : s.buf = t.buf
+  bufPayload : s.bufPayload = t.bufPayload
+  bufCount : s.bufCount = t.bufCount
+  seq : s.seq = t.seq
+  total : s.total = t.total
+  rev : s.rev = t.rev
+  sent : s.sent = t.sent
+  sendHook : s.sendHook = t.sendHook
+  ackHook : s.ackHook = t.ackHook
+  closeReq : s.closeReq = t.closeReq
+
+theorem Eqv.refl (s : St) : Eqv s s := ⟨rfl, rfl, rfl, rfl, rfl, rfl, rfl, rfl, rfl, rfl, rfl⟩
+
+theorem Eqv.trans {s t u : St} (h : Eqv s t) (h' : Eqv t u) : Eqv s u :=
+  ⟨h.policy.trans h'.policy, h.buf.trans h'.buf, h.bufPayload.trans h'.bufPayload, h.bufCount.trans h'.bufCount,
+   h.seq.trans h'.seq, h.total.trans h'.total, h.rev.trans h'.rev, h.sent.trans h'.sent, h.sendHook.trans h'.sendHook,
+   h.ackHook.trans h'.ackHook, h.closeReq.trans h'.closeReq⟩
+
+/-- replacing the storage and the waiters stays in the class -/
+theorem Eqv_frame (s : St) (st : List (Nat × Groups)) (wa : List Nat) : Eqv { s with store := st, waiters := wa } s :=
+  ⟨rfl, rfl, rfl, rfl, rfl, rfl, rfl, rfl, rfl, rfl, rfl⟩
+
+theorem Eqv_addBuf (s t : St) (d : DataID) (ps : List Point) (h : Eqv s t) : Eqv (addBuf s d ps) (addBuf t d ps) := by
+  refine ⟨h.policy, ?_, ?_, ?_, h.seq, h.total, h.rev, h.sent, h.sendHook, h.ackHook, h.closeReq⟩
+  · show bufAdd s.buf d ps = bufAdd t.buf d ps
+    rw [h.buf]
+  · show s.bufPayload + payloadLen ps = t.bufPayload + payloadLen ps
+    rw [h.bufPayload]
+  · show s.bufCount + ps.length = t.bufCount + ps.length
+    rw [h.bufCount]
+
+theorem Eqv_cut (s t : St) (h : Eqv s t) : Eqv (cut s) (cut t) := by
+  by_cases hb : s.buf = []
+  · rw [cut_nil s hb, cut_nil t (h.buf ▸ hb)]; exact h
+  · have hb' : t.buf ≠ [] := h.buf ▸ hb
+    rw [cut_cons s hb, cut_cons t hb']
+    refine ⟨h.policy, rfl, rfl, rfl, ?_, ?_, h.rev, ?_, ?_, h.ackHook, h.closeReq⟩
+    · show s.seq + 1 = t.seq + 1
+      rw [h.seq]
+    · show s.total + s.bufCount = t.total + t.bufCount
+      rw [h.total, h.bufCount]
+    · show s.sent ++ [(⟨s.seq + 1, (toWire s.rev s.buf).1, (toWire s.rev s.buf).2⟩ : Chunk)] =
+        t.sent ++ [(⟨t.seq + 1, (toWire t.rev t.buf).1, (toWire t.rev t.buf).2⟩ : Chunk)]
+      rw [h.sent, h.seq, h.rev, h.buf]
+    · show s.sendHook ++ [(s.seq + 1, toGroups s.buf)] = t.sendHook ++ [(t.seq + 1, toGroups t.buf)]
+      rw [h.sendHook, h.seq, h.buf]
+
+theorem Eqv_ack (s t : St) (rs : List (Nat × Nat)) (als : List (Nat × DataID)) (h : Eqv s t) :
+    Eqv (ack s rs als) (ack t rs als) := by
+  obtain ⟨st, wa, h1⟩ := ack_frame s rs als
+  obtain ⟨st', wa', h2⟩ := ack_frame t rs als
+  rw [h1, h2]
+  refine ⟨h.policy, h.buf, h.bufPayload, h.bufCount, h.seq, h.total, ?_, h.sent, h.sendHook, ?_, h.closeReq⟩
+  · show learn s.rev als = learn t.rev als
+    rw [h.rev]
+  · show s.ackHook ++ rs = t.ackHook ++ rs
+    rw [h.ackHook]
+
+theorem Eqv_closeRequest (s t : St) (h : Eqv s t) : Eqv (closeRequest s) (closeRequest t) := by
+  refine ⟨h.policy, h.buf, h.bufPayload, h.bufCount, h.seq, h.total, h.rev, h.sent, h.sendHook, h.ackHook, ?_⟩
+  show some (s.total, s.seq) = some (t.total, t.seq)
+  rw [h.total, h.seq]
+
+theorem Eqv_step (s t : St) (e : Ev) (h : Eqv s t) : Eqv (step s e) (step t e) := by
+  cases e with
+  | accept d ps =>
+    show Eqv (accept s d ps) (accept t d ps)
+    rw [accept_eq, accept_eq, h.policy, h.bufPayload]
+    split
+    · exact Eqv_cut _ _ (Eqv_addBuf _ _ _ _ h)
+    · exact Eqv_addBuf _ _ _ _ h
+  | tick =>
+    show Eqv (tick s) (tick t)
+    unfold tick
+    rw [h.policy]
+    split
+    · exact Eqv_cut _ _ h
+    · exact h
+  | flush => exact Eqv_cut _ _ h
+  | ack rs als => exact Eqv_ack _ _ _ _ h
+  | closeFlush => exact Eqv_cut _ _ h
+  | closeRequest => exact Eqv_closeRequest _ _ h
+
+/-! ### per-step facts used by the store invariant -/
+
+theorem cut_seq_le (s : St) : s.seq ≤ (cut s).seq := by
+  by_cases hb : s.buf = []
+  · rw [cut_nil s hb]; exact Nat.le_refl _
+  · rw [cut_cons s hb]; exact Nat.le_succ _
+
+/-- every send-hook call carries an issued sequence number -/
+theorem hook_le (s : St) (h : Inv s) : ∀ e ∈ s.sendHook, e.1 ≤ s.seq := by
+  intro e he
+  have h1 : e.1 ∈ s.sendHook.map (·.1) := List.mem_map_of_mem he
+  rw [h.hook, h.seqs, List.mem_range'_1] at h1
+  omega
+
+/-- the unacknowledged-is-stored invariant: every send-hook call whose number was never the target of a result is stored
+    with its content -/
+def Kept (s : St) : Prop := ∀ e ∈ s.sendHook, e.1 ∉ s.ackHook.map (·.1) → alGet e.1 s.store = some e.2
+
+theorem Kept_init (p : Policy) (rev : List (DataID × Nat)) : Kept { policy := p, rev := rev } := by
+  intro e he
+  cases he
+
+theorem Kept_addBuf (s : St) (d : DataID) (ps : List Point) (h : Kept s) : Kept (addBuf s d ps) := h
+
+theorem Kept_closeRequest (s : St) (h : Kept s) : Kept (closeRequest s) := h
+
+theorem Kept_cut (s : St) (hi : Inv s) (h : Kept s) : Kept (cut s) := by
+  by_cases hb : s.buf = []
+  · rw [cut_nil s hb]; exact h
+  · rw [cut_cons s hb]
+    intro e he hn
+    show alGet e.1 (alPut (s.seq + 1) (toGroups s.buf) s.store) = some e.2
+    have he' : e ∈ s.sendHook ++ [(s.seq + 1, toGroups s.buf)] := he
+    rcases List.mem_append.1 he' with he' | he'
+    · have hle := hook_le s hi e he'
+      have hne : e.1 ≠ s.seq + 1 := by omega
+      rw [alGet_alPut_ne hne]
+      exact h e he' hn
+    · rw [List.mem_singleton.1 he']
+      exact alGet_alPut_self _ _ _
+
+theorem Kept_result (s : St) (q c : Nat) (h : Kept s) : Kept (result s q c) := by
+  simp only [result]
+  split
+  · intro e he hn
+    have hn' : e.1 ∉ (s.ackHook ++ [(q, c)]).map (·.1) := hn
+    simp only [List.map_append, List.map_cons, List.map_nil, List.mem_append, List.mem_singleton, not_or] at hn'
+    show alGet e.1 (alDel q s.store) = some e.2
+    rw [alGet_alDel_ne hn'.2]
+    exact h e he hn'.1
+  · intro e he hn
+    have hn' : e.1 ∉ (s.ackHook ++ [(q, c)]).map (·.1) := hn
+    simp only [List.map_append, List.map_cons, List.map_nil, List.mem_append, List.mem_singleton, not_or] at hn'
+    exact h e he hn'.1
+
+theorem Kept_results (rs : List (Nat × Nat)) : ∀ s : St, Kept s → Kept (rs.foldl (fun st r => result st r.1 r.2) s) := by
+  induction rs with
+  | nil => intro s h; exact h
+  | cons r rs ih => intro s h; rw [List.foldl_cons]; exact ih _ (Kept_result s r.1 r.2 h)
+
+theorem Kept_ack (s : St) (rs : List (Nat × Nat)) (als : List (Nat × DataID)) (h : Kept s) : Kept (ack s rs als) := by
+  unfold ack
+  exact Kept_results rs _ h
+
+theorem Kept_step (s : St) (e : Ev) (hi : Inv s) (h : Kept s) : Kept (step s e) := by
+  cases e with
+  | accept d ps =>
+    show Kept (accept s d ps)
+    rw [accept_eq]
+    split
+    · exact Kept_cut _ (Inv_addBuf _ _ _ hi) (Kept_addBuf _ _ _ h)
+    · exact Kept_addBuf _ _ _ h
+  | tick =>
+    show Kept (tick s)
+    unfold tick
+    split
+    · exact Kept_cut _ hi h
+    · exact h
+  | flush => exact Kept_cut _ hi h
+  | ack rs als => exact Kept_ack _ _ _ h
+  | closeFlush => exact Kept_cut _ hi h
+  | closeRequest => exact Kept_closeRequest _ h
+
+/-- stored chunks carry issued sequence numbers -/
+def KeysLe (s : St) : Prop := ∀ x ∈ s.store, x.1 ≤ s.seq
+
+theorem mem_alDel {α} (k : Nat) (l : List (Nat × α)) (x : Nat × α) (h : x ∈ alDel k l) : x ∈ l :=
+  (List.mem_filter.1 h).1
+
+theorem KeysLe_cut (s : St) (h : KeysLe s) : KeysLe (cut s) := by
+  by_cases hb : s.buf = []
+  · rw [cut_nil s hb]; exact h
+  · rw [cut_cons s hb]
+    intro x hx
+    show x.1 ≤ s.seq + 1
+    have hx' : x ∈ alPut (s.seq + 1) (toGroups s.buf) s.store := hx
+    rcases List.mem_cons.1 hx' with hx' | hx'
+    · rw [hx']; exact Nat.le_refl _
+    · exact Nat.le_succ_of_le (h x (mem_alDel _ _ _ hx'))
+
+theorem KeysLe_result (s : St) (q c : Nat) (h : KeysLe s) : KeysLe (result s q c) := by
+  simp only [result]
+  split
+  · intro x hx
+    exact h x (mem_alDel q s.store x hx)
+  · exact h
+
+theorem KeysLe_results (rs : List (Nat × Nat)) : ∀ s : St, KeysLe s → KeysLe (rs.foldl (fun st r => result st r.1 r.2) s) := by
+  induction rs with
+  | nil => intro s h; exact h
+  | cons r rs ih => intro s h; rw [List.foldl_cons]; exact ih _ (KeysLe_result s r.1 r.2 h)
+
+theorem KeysLe_ack (s : St) (rs : List (Nat × Nat)) (als : List (Nat × DataID)) (h : KeysLe s) : KeysLe (ack s rs als) := by
+  unfold ack
+  exact KeysLe_results rs _ h
+
+theorem KeysLe_step (s : St) (e : Ev) (h : KeysLe s) : KeysLe (step s e) :=
+  step_ind (P := KeysLe) (fun _ _ _ h => h) KeysLe_cut KeysLe_ack (fun _ h => h) s e h
+
+/-! ### association lists: membership -/
+
+theorem alGet_mem {α} (k : Nat) (v : α) (l : List (Nat × α)) (h : alGet k l = some v) : (k, v) ∈ l := by
+  induction l with
+  | nil => cases h
+  | cons e r ih =>
+    obtain ⟨k', v'⟩ := e
+    rw [alGet_cons] at h
+    split at h
+    · next hk =>
+      subst hk
+      cases h
+      exact List.mem_cons_self
+    · exact List.mem_cons_of_mem _ (ih h)
+
+theorem alGet_isSome_of_mem {α} (x : Nat × α) (l : List (Nat × α)) (h : x ∈ l) : (alGet x.1 l).isSome = true := by
+  induction l with
+  | nil => cases h
+  | cons e r ih =>
+    obtain ⟨k', v'⟩ := e
+    rw [alGet_cons]
+    split
+    · rfl
+    · next hk =>
+      rcases List.mem_cons.1 h with h | h
+      · subst h; exact absurd rfl hk
+      · exact ih h
+
+theorem alGet_le_of_KeysLe (s : St) (h : KeysLe s) (q : Nat) (v : Groups) (hq : alGet q s.store = some v) : q ≤ s.seq :=
+  h _ (alGet_mem q v s.store hq)
+
+end Iscp.Up
+
+namespace Iscp.Rel
+open Iscp Iscp.Up
+
+/-! ### run -/
+
+theorem run_nil (s : St) : run s [] = s := rfl
+theorem run_cons (s : St) (e : Ev) (r : List Ev) : run s (e :: r) = run (step s e) r := rfl
+theorem run_append (s : St) (a b : List Ev) : run s (a ++ b) = run (run s a) b := List.foldl_append ..
+
+theorem step_up (s : St) (e : Up.Ev) : step s (.up e) = { s with up := Up.step s.up e } := rfl
+theorem step_disconnect (s : St) : step s .disconnect = disconnect s := rfl
+theorem step_resume (s : St) : step s .resume = resume s := rfl
+
+/-! ### sortBySeq keeps the elements -/
+
+theorem mem_sortStep (acc : List (Nat × Groups)) (x y : Nat × Groups) :
+    y ∈ (acc.filter (·.1 ≤ x.1)) ++ [x] ++ (acc.filter (·.1 > x.1)) ↔ y ∈ acc ∨ y = x := by
+  simp only [List.mem_append, List.mem_filter, List.mem_singleton, decide_eq_true_eq]
+  constructor
+  · rintro ((⟨h, _⟩ | h) | ⟨h, _⟩)
+    · exact Or.inl h
+    · exact Or.inr h
+    · exact Or.inl h
+  · rintro (h | h)
+    · by_cases hle : y.1 ≤ x.1
+      · exact Or.inl (Or.inl ⟨h, hle⟩)
+      · exact Or.inr ⟨h, by omega⟩
+    · exact Or.inl (Or.inr h)
+
+theorem mem_sortFold (m : List (Nat × Groups)) : ∀ (acc : List (Nat × Groups)) (y : Nat × Groups),
+    y ∈ m.foldl (fun acc x => (acc.filter (·.1 ≤ x.1)) ++ [x] ++ (acc.filter (·.1 > x.1))) acc ↔ y ∈ acc ∨ y ∈ m := by
+  induction m with
+  | nil => intro acc y; simp
+  | cons x r ih =>
+    intro acc y
+    rw [List.foldl_cons, ih, mem_sortStep, List.mem_cons, or_assoc]
+
+theorem mem_sortBySeq (m : List (Nat × Groups)) (y : Nat × Groups) : y ∈ sortBySeq m ↔ y ∈ m := by
+  unfold sortBySeq
+  rw [mem_sortFold]
+  simp
+
+/-! ### disconnect and resume, field by field -/
+
+theorem disconnect_up (s : St) : (disconnect s).up = { cut s.up with waiters := [] } := rfl
+theorem disconnect_reliable (s : St) : (disconnect s).reliable = s.reliable := rfl
+theorem disconnect_resent (s : St) : (disconnect s).resent = s.resent := rfl
+
+theorem resume_reliable (s : St) (hr : s.reliable = true) :
+    resume s = { s with resent := s.resent ++ (sortBySeq s.up.store).map (resendOf s.up.rev),
+                        up := { s.up with waiters := (sortBySeq s.up.store).map (·.1) }, resumes := s.resumes + 1 } := by
+  simp [resume, hr]
+
+theorem resume_unreliable (s : St) (hr : s.reliable = false) :
+    resume s = { s with up := { s.up with store := [], waiters := [] }, resumes := s.resumes + 1 } := by
+  simp [resume, hr]
+
+theorem resume_rel (s : St) : (resume s).reliable = s.reliable := by
+  unfold resume
+  split <;> rfl
+
+theorem step_reliable (s : St) (e : Ev) : (step s e).reliable = s.reliable := by
+  cases e with
+  | up e => rfl
+  | disconnect => rfl
+  | resume => exact resume_rel s
+
+theorem run_reliable : ∀ (evs : List Ev) (s : St), (run s evs).reliable = s.reliable := by
+  intro evs
+  induction evs with
+  | nil => intro s; rfl
+  | cons e r ih => intro s; rw [run_cons, ih, step_reliable]
+
+theorem Eqv_disconnect (s : St) : Eqv (disconnect s).up (cut s.up) := by
+  rw [disconnect_up]
+  exact ⟨rfl, rfl, rfl, rfl, rfl, rfl, rfl, rfl, rfl, rfl, rfl⟩
+
+theorem Eqv_resume (s : St) : Eqv (resume s).up s.up := by
+  unfold resume
+  split <;> exact ⟨rfl, rfl, rfl, rfl, rfl, rfl, rfl, rfl, rfl, rfl, rfl⟩
+
+/-- the upstream invariant only speaks about fields outside storage and waiters -/
+theorem Inv_of_Eqv (s t : Up.St) (h : Eqv s t) (hi : Inv t) : Inv s := by
+  obtain ⟨h1, h2, h3, h4, h5, h6, h7, h8, h9, h10, h11⟩ := h
+  exact ⟨h2 ▸ hi.nodup, by rw [h4, h2]; exact hi.cnt, by rw [h8, h5]; exact hi.len, by rw [h8, h5]; exact hi.seqs,
+    by rw [h9, h8]; exact hi.hook, by rw [h6, h9]; exact hi.total, by rw [h8]; exact hi.ids, by rw [h9]; exact hi.groups⟩
+
+theorem Inv_step (s : St) (e : Ev) (h : Inv s.up) : Inv (step s e).up := by
+  cases e with
+  | up e => exact Up.Inv_step s.up e h
+  | disconnect => exact Inv_of_Eqv _ _ (Eqv_disconnect s) (Inv_cut _ h)
+  | resume => exact Inv_of_Eqv _ _ (Eqv_resume s) h
+
+/-! ### the store invariant along histories with failures -/
+
+theorem Kept_disconnect (s : St) (hi : Inv s.up) (h : Kept s.up) : Kept (disconnect s).up := by
+  rw [disconnect_up]
+  exact Kept_cut _ hi h
+
+theorem Kept_resume (s : St) (hr : s.reliable = true) (h : Kept s.up) : Kept (resume s).up := by
+  rw [resume_reliable s hr]
+  exact h
+
+theorem Kept_step (s : St) (e : Ev) (hr : s.reliable = true) (hi : Inv s.up) (h : Kept s.up) : Kept (step s e).up := by
+  cases e with
+  | up e => exact Up.Kept_step s.up e hi h
+  | disconnect => exact Kept_disconnect s hi h
+  | resume => exact Kept_resume s hr h
+
+theorem Kept_run : ∀ (evs : List Ev) (s : St), s.reliable = true → Inv s.up → Kept s.up → Kept (run s evs).up := by
+  intro evs
+  induction evs with
+  | nil => intro s _ _ h; exact h
+  | cons e r ih =>
+    intro s hr hi h
+    rw [run_cons]
+    exact ih _ ((step_reliable s e).trans hr) (Inv_step s e hi) (Kept_step s e hr hi h)
+
+theorem KeysLe_disconnect (s : St) (h : KeysLe s.up) : KeysLe (disconnect s).up := by
+  rw [disconnect_up]
+  exact KeysLe_cut _ h
+
+theorem KeysLe_resume (s : St) (h : KeysLe s.up) : KeysLe (resume s).up := by
+  unfold resume
+  split
+  · exact h
+  · intro x hx; cases hx
+
+theorem KeysLe_step (s : St) (e : Ev) (h : KeysLe s.up) : KeysLe (step s e).up := by
+  cases e with
+  | up e => exact Up.KeysLe_step s.up e h
+  | disconnect => exact KeysLe_disconnect s h
+  | resume => exact KeysLe_resume s h
+
+theorem KeysLe_run : ∀ (evs : List Ev) (s : St), KeysLe s.up → KeysLe (run s evs).up := by
+  intro evs
+  induction evs with
+  | nil => intro s h; exact h
+  | cons e r ih => intro s h; rw [run_cons]; exact ih _ (KeysLe_step s e h)
+
+/-- results of one event of a history with failures -/
+def res : Ev → List (Nat × Nat)
+  | .up e => Up.res e
+  | _ => []
+
+theorem ackHook_step (s : St) (e : Ev) : (step s e).up.ackHook = s.up.ackHook ++ res e := by
+  cases e with
+  | up e => exact Up.ackHook_step s.up e
+  | disconnect =>
+    show (disconnect s).up.ackHook = s.up.ackHook ++ []
+    rw [(Eqv_disconnect s).ackHook, cut_ackHook, List.append_nil]
+  | resume =>
+    show (resume s).up.ackHook = s.up.ackHook ++ []
+    rw [(Eqv_resume s).ackHook, List.append_nil]
+
+theorem ackHook_run : ∀ (evs : List Ev) (s : St), (run s evs).up.ackHook = s.up.ackHook ++ evs.flatMap res := by
+  intro evs
+  induction evs with
+  | nil => intro s; simp [run_nil]
+  | cons e r ih => intro s; rw [run_cons, ih, ackHook_step, List.flatMap_cons, List.append_assoc]
+
+/-! ### resume retransmits the store -/
+
+theorem resendOf_seq (rev : List (DataID × Nat)) (e : Nat × Groups) : (resendOf rev e).seq = e.1 := rfl
+
+theorem resendOf_groups (rev : List (DataID × Nat)) (e : Nat × Groups) :
+    (resendOf rev e).groups = (groupsToBuf e.2).map (wireOf rev) := rfl
+
+theorem resendOf_resolve (rev : List (DataID × Nat)) (hs : RevSane rev) (e : Nat × Groups) :
+    (resendOf rev e).groups.map (resolve rev) = e.2.map some := by
+  rw [resendOf_groups]
+  unfold groupsToBuf
+  rw [List.map_map, List.map_map]
+  apply List.map_congr_left
+  intro g _
+  exact resolve_wireOf rev rev (g.id, g.points) (fun _ hx => hx) hs
+
+theorem resume_resent_mem (s : St) (hr : s.reliable = true) (x : Nat × Groups) (hx : x ∈ s.up.store) :
+    resendOf s.up.rev x ∈ (resume s).resent := by
+  rw [resume_reliable s hr]
+  show resendOf s.up.rev x ∈ s.resent ++ (sortBySeq s.up.store).map (resendOf s.up.rev)
+  exact List.mem_append_right _ (List.mem_map_of_mem ((mem_sortBySeq _ _).2 hx))
+
+theorem resume_store (s : St) (hr : s.reliable = true) : (resume s).up.store = s.up.store := by
+  rw [resume_reliable s hr]
+
+theorem disconnect_buf (s : St) : (disconnect s).up.buf = [] := by
+  rw [disconnect_up]
+  exact cut_buf s.up
+
+end Iscp.Rel
